@@ -38,15 +38,15 @@ class Sub:
         self.forwarded += 1
         self.parent.oblig(ok, self.prefix + key, summary, detail, sample)
 
-    def violation(self, key, summary, detail=None):
+    def violation(self, key, summary, detail=None, hard=False):
         if self.pred is not None and not self.pred(key):
             return
-        self.parent.violation(self.prefix + key, summary, detail)
+        self.parent.violation(self.prefix + key, summary, detail, hard=hard)
 
-    def require_anchor(self, cond, what):
+    def require_anchor(self, cond, what, hard=False):
         if self.pred is not None:
             return cond           # the lending rule reports its own anchors; the borrower checks `forwarded` instead
-        return self.parent.require_anchor(cond, self.prefix + what)
+        return self.parent.require_anchor(cond, self.prefix + what, hard=hard)
 
     def borrow(self, module, config, floor, what):
         """run the other rule's clauses for one MIR configuration and require that at least `floor` of them applied"""
@@ -78,6 +78,7 @@ class Check:
         self._facts = {}
         self.analysed = {"functions": set(), "entries": []}
         self.keys = []
+        self.engines = []                # every abstract-interpretation engine this check created
         self.used_contracts = {}         # (trait, method) pairs whose contract some engine of this check applied
 
     # ------------------------------------------------------------ facts
@@ -93,11 +94,14 @@ class Check:
         return self._facts[config]
 
     # ------------------------------------------------------------ findings
-    def violation(self, key, summary, detail=None):
+    def violation(self, key, summary, detail=None, hard=False):
+        """hard: the finding stands even when the analysis was incomplete (a missing function, a call into a
+        panicking class of callee); other findings of an incomplete analysis are reported as undecided"""
         for f in self.findings:
             if f["key"] == key:
+                f["hard"] = f.get("hard") or hard
                 return
-        self.findings.append({"key": key, "summary": summary, "detail": detail})
+        self.findings.append({"key": key, "summary": summary, "detail": detail, "hard": hard})
 
     def oblig(self, ok, key, summary, detail=None, sample=None):
         """one proof obligation of the property"""
@@ -110,10 +114,10 @@ class Check:
         else:
             self.violation(key, summary, detail)
 
-    def require_anchor(self, cond, what):
+    def require_anchor(self, cond, what, hard=False):
         if not cond:
             self.violation("anchor | %s" % what, "anchor missing or below floor: %s" % what,
-                           {"rule": "anchor", "note": "a rule that matches nothing would pass vacuously"})
+                           {"rule": "anchor", "note": "a rule that matches nothing would pass vacuously"}, hard=hard)
         return cond
 
     def add_engine_obligs(self, eng, kinds, prop_rule, allow=None, only_fns=None):
@@ -133,6 +137,9 @@ class Check:
             if ok and len(self.samples) < 12:
                 sample = {"obligation": key, "paths": o.total, "contexts": sorted(o.contexts)[:3],
                           "at": o.ln, "derivation": (o.ok_samples[0]["detail"] if o.ok_samples else "entailed by the path constraints (Fourier-Motzkin)")}
+            if not ok and any(str(x.get("detail", "")).startswith("unmodelled callee of a panicking class") for x in o.samples):
+                # a call into a class of callee that can panic is a finding in its own right, however incomplete the rest
+                self.violation(key, "%s: %s at %s (%s)" % (prop_rule, o.samples[0]["detail"], o.ln, o.fn), {"rule": prop_rule, "kind": o.kind}, hard=True)
             self.oblig(ok, key,
                        "%s: %s at %s (%s)" % (prop_rule, (o.samples[0]["detail"] if o.samples else "undischarged"), o.ln, o.fn),
                        {"rule": prop_rule, "kind": o.kind, "function": o.fn, "site": o.label, "ordinal": o.ordinal,
@@ -225,18 +232,40 @@ class Check:
                 self.selftest()
             except Exception as e:      # the self-test is an extra; it must never break the verdict
                 self.extra["selftest"] = {"error": repr(e)[:300]}
+        # completeness of the abstract interpretation behind this verdict
+        unmod, unexp = {}, {}
+        for e in self.engines:
+            for name, n in getattr(e, "unmodelled", {}).items():
+                unmod[name] = unmod.get(name, 0) + n
+            for name, n in getattr(e, "aborted", {}).items():
+                unexp[name] = unexp.get(name, 0) + n
+        if unmod:
+            self.extra["unmodelled"] = unmod
+        if unexp:
+            self.extra["unexplored_paths"] = unexp
+        incomplete = bool(unmod or unexp)
         known = {"known": [], "fixed": []}
         kp = os.path.join(VERIF, "known_findings.json")
         if os.path.exists(kp):
             known = json.load(open(kp))
         known_keys = {(k["property"], k["key"]): k for k in known.get("known", [])}
         new = []
+        undecided = []
         for f in self.findings:
             k = known_keys.get((self.pid, f["key"]))
             if k is not None:
                 print("KNOWN-FINDING: property=%s %s -- %s" % (self.pid, f["key"], k.get("what", f["summary"])))
+            elif incomplete and not f.get("hard"):
+                # the code uses constructs outside the modelled fragment: what could not be proven there is not a
+                # refutation.  Reported, never an alarm.
+                undecided.append(f)
+                print("UNDECIDED property=%s %s" % (self.pid, f["key"]))
+                print("  (analysis incomplete: %s)" % ", ".join(sorted(list(unmod) + list(unexp))[:4]))
             else:
                 new.append(f)
+        if undecided:
+            self.extra["undecided"] = [{"key": f["key"], "summary": f["summary"][:300]} for f in undecided]
+            self.extra["undecided_because"] = {"unmodelled_callees": unmod, "unexplored_paths": unexp}
         fdir = os.path.join(OUT, "findings", self.pid)
         os.makedirs(fdir, exist_ok=True)
         for f in new:
